@@ -6,6 +6,7 @@ import ast
 from sa.algebra import Und, Rat, rat_of, PW, ObjV, SymDict
 from sa.core import AnalysisError, unparse, walk_no_nested
 from . import kin
+from sa.terms import T
 
 LEVEL = "other"
 EXPLANATION = (
@@ -90,12 +91,74 @@ def _loc_parts(t):
     return None
 
 
+def _gather_helper(repo, col, R="R-C14-rows"):
+    """query_channel_states_and_params(d, keys, idcs) == {k: d[k][idcs] for k in keys}.  A positional shortcut (a slice
+    instead of the gather) is the same selection only for CONSECUTIVE indices (all(diff(idcs) == 1))."""
+    from . import idx
+    hf = repo.func("jaxley/utils/cell_utils.py", "query_channel_states_and_params")
+    hx = idx.expander(repo, hf)
+    r = hx.merged_return()
+    if r is None:
+        col.unk(R, hf, "gather helper", "return value not found", node=hf.node)
+        return
+    subs = [x for x in r.walk() if x.op == "sub" and T.find(x.args[0], lambda y: y.op == "param" and y.name == hf.params[0]) is not None]
+    if not subs:
+        col.unk(R, hf, "gather helper", f"no gather of the entries found in {r.short(100)}", node=hf.node)
+        return
+    ip = hf.params[2]
+    for x in subs[:1]:
+        ix = x.args[1]
+        if ix.op == "param" and ix.name == ip:
+            col.ok(R, hf, "the helper gathers exactly the given rows", f"d[k][{ip}]", node=hf.node)
+            continue
+        verdict, why = "UNDECIDED", f"the entries are selected with {ix.short(100)}"
+        if ix.op == "ifexp":
+            alts = [ix.args[1], ix.args[2]]
+            if any(a_.op == "param" and a_.name == ip for a_ in alts) and any(a_.op == "slice" or (a_.op == "call" and a_.name == "slice") for a_ in alts):
+                cond = ix.args[0]
+                d = T.find(cond, lambda y: y.op == "cmp" and T.find(y, lambda z: z.op == "mcall" and z.name == "diff") is not None)
+                if d is not None and d.name == "==" and any(a_.op == "const" and a_.name == 1 for a_ in d.args):
+                    verdict, why = "DISCHARGED", "a slice is used only when the rows are consecutive (diff == 1)"
+                elif d is not None:
+                    verdict = "VIOLATED"
+                    why = (f"a slice replaces the gather when `{d.short(60)}`: that holds for any ascending rows, also with gaps "
+                           f"(a channel inserted in branches 0 and 2): the slice then reads the rows in between, i.e. the parameters "
+                           f"of other compartments")
+        col.add(R, hf, "the helper gathers exactly the given rows", verdict, why, node=hf.node)
+
+
 def _rows(repo, col):
     """Def-use in Module.init_states (terms engine expands the temporaries away)."""
     from sa.terms import Expander, T
 
     fi = repo.method("Module", "init_states")
-    ex = Expander(repo, fi)
+    from . import idx
+    from sa.terms import fuse_comprehensions as _fuse
+    ex = idx.expander(repo, fi)
+    KEEP = ("query_channel_states_and_params",)
+
+    class _N:
+        """terms in normal form: local helpers looked through, unpacked tuples resolved"""
+        def __init__(self, ex_):
+            self._ex = ex_
+            self.stores = [self._S(s_) for s_ in ex_.stores]
+
+        def term(self, node):
+            return _fuse(idx.inline(repo, fi, self._ex.term(node), keep=KEEP))
+
+        class _Sx:
+            pass
+
+        def _S(self, s_):
+            o = self._Sx()
+            o.kind, o.node = s_.kind, s_.node
+            o.base = _fuse(idx.inline(repo, fi, s_.base, keep=KEEP)) if s_.base is not None else None
+            o.key = _fuse(idx.inline(repo, fi, s_.key, keep=KEEP)) if s_.key is not None else None
+            o.value = _fuse(idx.inline(repo, fi, s_.value, keep=KEEP)) if s_.value is not None else None
+            return o
+    ex = _N(ex)
+    # the gather helper hands out, for every key, the entries of the given rows -- no other rows
+    _gather_helper(repo, col)
     calls = [n for n in ast.walk(fi.node) if isinstance(n, ast.Call) and isinstance(n.func, ast.Attribute)
              and n.func.attr == "init_state"]
     if not calls:
